@@ -370,6 +370,14 @@ def _r2(ctx):
                 init = d.group(2)
                 zero = init is not None and re.fullmatch(r"\s*0(\.0*)?f?\s*", init or "x") is not None
                 same_nest = _loops_enclosing(spans, d.start()) == _loops_enclosing(spans, m.start())
+                # storage duration: `static` / `thread_local` is initialised ONCE, not on every call
+                stmt_start = max(body.rfind(";", 0, d.start()), body.rfind("{", 0, d.start()), body.rfind("}", 0, d.start())) + 1
+                quals = set(re.findall(r"\b(static|thread_local|extern)\b", body[stmt_start:d.start()]))
+                if zero and quals:
+                    ctx.bad("R2", key, (rel, 0), f"`{arr}` has {'/'.join(sorted(quals))} storage: its zero initialiser runs once per thread, not on every call, so a reaction that was inside "
+                                                  f"its window on an earlier call keeps that rate when the window guard is false now ({arr}[i] is only assigned inside `if (window)`)",
+                            expected=f"an automatic array zeroed on every call: realtype {arr}[..] = {{0.0}};", found=body[stmt_start:d.end()].strip())
+                    continue
                 if not zero:
                     ctx.bad("R2", key, (rel, 0), f"`{arr}` is declared without a zero initialiser: a reaction outside its window leaves {arr}[i] indeterminate",
                             expected=f"{arr}[..] = {{0.0}}", found=d.group(0))
@@ -960,6 +968,7 @@ MUTANTS = [
     {"name": "join-simplified-drops-lower", "file": T, "old": '"".join([lt, " && " if lt and ut else "", ut])', "new": '" && ".join([lt, ut]) if lt and ut else ut', "rules": ["R1"]},
     {"name": "rates-reversed", "file": T, "old": "rateexprs = [reac.rateexpr() for reac in reactions]", "new": "rateexprs = [reac.rateexpr() for reac in reversed(reactions)]", "rules": ["R1"]},
     {"name": "guard-other-reaction", "file": T, "old": 'ltranges = [f"Tgas>={r.temp_min}" if r.temp_min > 0 else "" for r in reactions]', "new": 'ltranges = [f"Tgas>={r.temp_min}" if r.temp_min > 0 else "" for r in sorted(reactions, key=lambda x: x.temp_min)]', "rules": ["R1"]},
+    {"name": "fex-k-static", "file": FEX, "old": "    realtype k[NREACTIONS] = {0.0};\n    EvalRates(k, y, u_data);", "new": "    static realtype k[NREACTIONS] = {0.0};\n    EvalRates(k, y, u_data);", "rules": ["R2"]},
     {"name": "sparse-jac-k-uninitialised", "file": JAC, "old": "    realtype k[NREACTIONS] = {0.0};\n    EvalRates(k, y, u_data);\n\n#if NHEATPROCS\n    realtype kh[NHEATPROCS] = {0.0};\n    EvalHeatingRates(kh, y, u_data);\n#endif\n\n#if NCOOLPROCS\n    realtype kc[NCOOLPROCS] = {0.0};\n    EvalCoolingRates(kc, y, u_data);\n#endif\n\n    // clang-format off\n    // number of non-zero",
      "new": "    realtype k[NREACTIONS];\n    EvalRates(k, y, u_data);\n\n#if NHEATPROCS\n    realtype kh[NHEATPROCS] = {0.0};\n    EvalHeatingRates(kh, y, u_data);\n#endif\n\n#if NCOOLPROCS\n    realtype kc[NCOOLPROCS] = {0.0};\n    EvalCoolingRates(kc, y, u_data);\n#endif\n\n    // clang-format off\n    // number of non-zero", "rules": ["R2"]},
     {"name": "kernel-k-hoisted", "edits": [
